@@ -170,7 +170,13 @@ cdef inline bint validate_union(
     bint raise_errors,
     dict options,
 ) except -1:
-    if isinstance(datum, tuple) and not options.get("disable_tuple_notation"):
+    # Only a pair can be the (name, value) notation; any other tuple is a
+    # plain sequence (unpacking it here would raise instead of answering)
+    if (
+        isinstance(datum, tuple)
+        and len(datum) == 2
+        and not options.get("disable_tuple_notation")
+    ):
         (name, datum) = datum
         for candidate in schema:
             if extract_record_type(candidate) == "record":
